@@ -39,7 +39,7 @@ AUTH_MIX = "set=2,get=2,getdel=1,login=3,loginx=2,logout=3,regen=3,user=3,lastac
 DESTROY_MIX = "set=3,get=2,getdel=1,login=1,logout=1,regen=1,user=2,lastaccess=1,expired=1,enc=1,destroy=5"
 DIRECTED = ["start-ua", "compact", "id-set", "id-delete", "id-logout", "id-login", "id-destroy", "regen-fields", "login-leak", "destroy-race"]
 PARAMS = ("clients", "inflight", "reqs", "hops", "seed", "cache", "codec", "idexpiry", "grace", "sessionexpiry", "cacheexpiry", "keys", "mix",
-          "cuid", "purge", "hist", "deadline", "directed", "iters")
+          "cuid", "purge", "hist", "deadline", "directed", "iters", "savefail")
 
 
 # ---------------------------------------------------------------------------
@@ -71,6 +71,10 @@ def random_script(rnd, i, reqs, deadline_ms, boost=None):
         # many concurrent key/value operations on few objects and keys
         p.update({"mix": KV_MIX, "clients": rnd.choice([1, 2]), "inflight": rnd.choice([4, 6, 8]), "hops": rnd.choice([8, 12]), "keys": rnd.choice([1, 1, 2]),
                   "cache": rnd.choice([64, 64, 2]), "idexpiry": rnd.choice([0, HOUR, HOUR]), "hist": 1, "reqs": max(10, reqs // 2)})
+        if rnd.random() < 0.4:
+            # a store that fails one save in ten: a failed Set/Delete reports its error and stays ONE step (no second
+            # critical section that puts an old value back over a write that completed in between)
+            p["savefail"] = 100
     elif kind == "auth":
         p.update({"mix": AUTH_MIX, "cache": rnd.choice([64, 64, 2, 1])})
     elif kind == "destroy":
@@ -81,10 +85,11 @@ def random_script(rnd, i, reqs, deadline_ms, boost=None):
 
 def kv_plain_script(rnd, reqs, deadline_ms):
     """many key/value operations by many requests on one object and one or two keys, for the plain (fast) build"""
+    fail = "savefail 100\n" if rnd.random() < 0.35 else ""
     return ("clients 1\ninflight %d\nreqs %d\nhops %d\nseed %d\ncache %d\ncodec %s\nidexpiry %d\ngrace 20000000\nkeys %d\n"
-            "mix set=4,get=2,del=1,getdel=8\ncuid 0\npurge 0\nhist 1\ndeadline %d\n" % (
+            "mix set=4,get=2,del=1,getdel=8\ncuid 0\npurge 0\nhist 1\ndeadline %d\n%s" % (
                 rnd.choice([4, 8, 12]), reqs, rnd.choice([10, 20]), rnd.randrange(1, 1 << 30), rnd.choice([64, 64, 2]), rnd.choice(["gob", "json"]),
-                rnd.choice([HOUR, HOUR, 50_000_000]), rnd.choice([1, 1, 2]), deadline_ms))
+                rnd.choice([HOUR, HOUR, 50_000_000]), rnd.choice([1, 1, 2]), deadline_ms, fail))
 
 
 def scenarios(tier, seed, boost=False):
